@@ -244,38 +244,38 @@ def inv2(rep, mod, table):
                    'LookupBaseFallback.changed(self, ...)')
 
 
-def inv3(rep, mod, table):
+def inv3(rep, mod, table, rule='INV-3'):
     f = find_def(mod, 'BaseAdapterRegistry._setBases')
     from .sem import paths_order
     ST = ["self.__dict__['__bases__'] = bases"]
     RO = ['self.ro = ro.ro(self)']
     CH = ['self.changed($$a)']
     site = 'BaseAdapterRegistry._setBases'
-    all_paths_event(rep, 'INV-3', f, site, ST, 'stores the new bases on every path',
+    all_paths_event(rep, rule, f, site, ST, 'stores the new bases on every path',
                     'store')
-    all_paths_event(rep, 'INV-3', f, site, RO,
+    all_paths_event(rep, rule, f, site, RO,
                     'recomputes self.ro = ro.ro(self) on every path', 'ro')
-    all_paths_event(rep, 'INV-3', f, site, CH, 'calls self.changed() on every path',
+    all_paths_event(rep, rule, f, site, CH, 'calls self.changed() on every path',
                     'changed')
     # order: store < ro < changed
     okorder = paths_order(f, ST, RO) and paths_order(f, RO, CH)
-    rep.check('INV-3', site, okorder,
+    rep.check(rule, site, okorder,
               'order: bases stored, then ro recomputed from them, then changed()',
               construct='order', node=f)
     # the property setter resolves to _setBases
     cls = find_def(mod, 'BaseAdapterRegistry')
-    shared.setter_routes(rep, 'INV-3', cls, '__bases__', 'BaseAdapterRegistry.__bases__')
+    shared.setter_routes(rep, rule, cls, '__bases__', 'BaseAdapterRegistry.__bases__')
     f = find_def(mod, 'AdapterRegistry._setBases')
-    all_paths_call(rep, 'INV-3', f, 'AdapterRegistry._setBases',
+    all_paths_call(rep, rule, f, 'AdapterRegistry._setBases',
                    'super()._setBases(bases)', 'super()._setBases(bases)')
     # constructor initialises through the property
     init = find_def(mod, 'BaseAdapterRegistry.__init__')
-    all_paths_event(rep, 'INV-3', init, 'BaseAdapterRegistry.__init__',
+    all_paths_event(rep, rule, init, 'BaseAdapterRegistry.__init__',
                     ['self.__bases__ = bases'],
                     'constructor assigns __bases__ through the property (initial '
                     'ro + changed)', 'init')
     ok = paths_order(init, ['self._createLookup()'], ['self.__bases__ = bases'])
-    rep.check('INV-3', 'BaseAdapterRegistry.__init__', ok,
+    rep.check(rule, 'BaseAdapterRegistry.__init__', ok,
               '_createLookup() precedes the first changed()', construct='lookup-first',
               node=init)
 
@@ -635,5 +635,8 @@ def run(rep):
     inv5(rep, mod, table)
     inv6(rep)
     inv7(rep)
+    # INV-5 compares generation snapshots by equality: sound only while the
+    # counter never returns to an earlier value
+    shared.generation_monotone(rep, 'INV-5', mod)
     from . import cside
     cside.c05(rep)
